@@ -217,6 +217,23 @@ func flight4Parse(
 	if _, ok = finishedPull.Messages[handshake.TypeFinished].(*handshake.MessageFinished); !ok {
 		return 0, &alert.Alert{Level: alert.Fatal, Description: alert.InternalError}, nil
 	}
+	if clientFinished, isFinished := finishedPull.Messages[handshake.TypeFinished].(*handshake.MessageFinished); isFinished {
+		// The client's Finished must cover the server's view of every handshake
+		// message before it (RFC 5246 Section 7.4.9).
+		transcript := cache.PullAndMerge(append(
+			handshakeRulesThroughClientKeyExchange(cfg.InitialEpoch),
+			dtlsflight.HandshakeCachePullRule{
+				Typ: handshake.TypeCertificateVerify, Epoch: cfg.InitialEpoch, IsClient: true, Optional: false,
+			},
+		)...)
+		expectedVerifyData, err := prf.VerifyDataClient(state.MasterSecret, transcript, state.CipherSuite.HashFunc())
+		if err != nil {
+			return 0, &alert.Alert{Level: alert.Fatal, Description: alert.InternalError}, err
+		}
+		if !bytes.Equal(expectedVerifyData, clientFinished.VerifyData) {
+			return 0, &alert.Alert{Level: alert.Fatal, Description: alert.HandshakeFailure}, dtlserrors.ErrVerifyDataMismatch
+		}
+	}
 
 	if state.CipherSuite.AuthenticationType() == ciphersuite.AuthenticationTypeAnonymous {
 		if cfg.VerifyConnection != nil {
